@@ -299,6 +299,9 @@ def walk_notifications(ctx, spec, rng):
     def one_round(subset):
         eg = res["eg"]
         eg.notify_once(subset if subset else list(eg.values.keys()))
+        if spec.get("double"):
+            # two rounds asked for in one loop iteration (two values changed in one go): both are in flight at once
+            eg.notify_once(subset if subset else list(eg.values.keys()))
 
     for r in range(rounds):
         t += 2.0 ** -10
@@ -505,6 +508,7 @@ def shards(tier, seed):
     out.append(dict(shard=34, seed=seed, mode="notify", nsub=2, events=4, rounds=65535 // 4 + 60))
     out.append(dict(shard=35, seed=seed, mode="notify", nsub=3, events=3, rounds=65535 // 2 + 200, mixed=True))
     out.append(dict(shard=36, seed=seed, mode="churn", scenarios=40 if tier == "quick" else 1500, actions=120))
+    out.append(dict(shard=38, seed=seed, mode="notify", nsub=3, events=20, rounds=300 if tier == "quick" else 4000, double=True))
     out.append(dict(shard=37, seed=seed, mode="answers", scenarios=60 if tier == "quick" else 3000, actions=80))
     if tier == "thorough":
         out.append(dict(shard=22, seed=seed, mode="announcer", collect=0, n=70000))
@@ -531,7 +535,7 @@ def run(spec, ctx):
                  sample=dict(path="announcer.queue_send", collection_timeout=spec["collect"], entries=spec["n"]))
     elif mode == "notify":
         walk_notifications(ctx, spec, rng)
-        ctx.case(("notify", spec["nsub"], spec["events"], spec["rounds"]), True,
+        ctx.case(("notify", spec["nsub"], spec["events"], spec["rounds"], bool(spec.get("double"))), True,
                  sample=dict(path="SimpleEventgroup.notify_once", subscribers=spec["nsub"], events=spec["events"],
                              rounds=spec["rounds"]))
     elif mode == "answers":
